@@ -9,3 +9,48 @@ CHECKS = [build_check("C18", SPECS[k], clauses=("rejects", "post", "dtype", "sha
           ("Random", "GradDrop.default", "GradDrop.leak")]
 TRUSTED = ["bridge lemmas softmax_simplex, cagrad_distance, cagrad_c_zero, mgda_step_descent, simplex_segment, fwGamma_*, "
            "pcStep_*, pcgrad_no_conflict (Lean)"]
+
+
+def mgda_check(H):
+    """MGDA: forward raises ValueError iff the input is invalid; the Frank-Wolfe loop keeps alpha on the simplex and
+    never increases the norm of the combination (loop invariant); the result is alpha_final @ J, in J's dtype, and
+    nothing is stored into the aggregator."""
+    from tjv.pyvc.aten import ATen
+    from . import specs as S
+
+    def body(cx):
+        it = H.interp(cx, loop_specs=AGG_LOOPS)
+        eps, mi = z3.Real("epsilon"), z3.Int("max_iters")
+        cx.assume(mi >= 0)
+        J, (m, n) = sym_matrix(cx, "J")
+        cx.assume(m >= 1)
+        agg = it.call(H.repo.get(f"{AGG}.mgda.MGDA"), [], {"epsilon": eps, "max_iters": mi})
+        n_ev = len(cx.events)
+        kind, v = call_catch(lambda: it.call(agg, [J]))
+        if kind == "raise":
+            cx.oblige("C18.MGDA.rejects_iff.raises_only_if_invalid", z3.And(v.cls == "ValueError", z3.Not(finite(J))))
+            return
+        cx.oblige("C18.MGDA.rejects_iff.accepts_only_valid", finite(J))
+        cx.oblige("C18.MGDA.stateless", len([e for e in cx.events[n_ev:] if e[0] == "setattr"]) == 0)
+        cx.oblige("C18.MGDA.dtype", v.dtype == J.dtype)
+        cx.oblige("C18.MGDA.shape", z3.And(len(v.shape_l) == 1, v.shape_l[0] == n))
+        alpha = cx.ghost.get("mgda_alpha_exit")
+        cx.oblige("C18.MGDA.loop_contract_was_used", alpha is not None)
+        if alpha is None:
+            return
+        with cx.mute():
+            spec = S.matmul(it, alpha, J)
+        cx.oblige("C18.MGDA.post.result_is_alpha_at_J", v.term == spec.term)
+        (vsum, nonneg, bil), a0, G = cx.ghost["mgda"]
+        cx.oblige("C18.MGDA.post.weights_on_simplex", z3.And(vsum(alpha.term) == 1, nonneg(alpha.term)))
+        cx.oblige("C18.MGDA.post.not_longer_than_the_mean", bil(alpha.term, alpha.term) <= bil(a0, a0))
+        with cx.mute():
+            G_spec = S.matmul(it, J, __import__("tjv.pyvc.aten", fromlist=["transpose"]).transpose(J))
+            u0 = S.B(it, __import__("ast").Div(), __import__("tjv.pyvc.prims", fromlist=["call"]).call(it, "torch.ones", [m], {"dtype": J.dtype}), m)
+        cx.oblige("C18.MGDA.post.gramian_and_start", z3.And(G.term == G_spec.term, a0 == u0.term))
+    H.explore(body)
+
+
+CHECKS.append(Check("MGDA", [f"{AGG}.mgda.MGDA.__init__", f"{AGG}.mgda._MGDAWeighting.__init__", f"{AGG}.mgda._MGDAWeighting.forward",
+                             f"{AGG}.mgda._MGDAWeighting._frank_wolfe_solver", f"{AGG}._gramian_utils._compute_gramian",
+                             f"{AGG}.bases._WeightedAggregator.forward"], mgda_check, replay_keys=["C18.mgda", "C04.mgda"]))
